@@ -110,6 +110,11 @@ mut("c30-no-recount", "C30", FW, "      d->warning[mjWARN_BADQACC].number++;\n",
 mut("c30-isbad-oneside", "C30", "src/engine/engine_util_misc.c", "  return (x != x || x > mjMAXVAL || x < -mjMAXVAL);", "  return (x != x || x > mjMAXVAL);", "rule=R-FINITE")
 mut("c30-isbad-equiv-ok", "C30", "src/engine/engine_util_misc.c", "  return (x != x || x > mjMAXVAL || x < -mjMAXVAL);", "  return !(x <= mjMAXVAL && x >= -mjMAXVAL);", None)
 mut("c30-scan-from-1", "C30", FW, "  for (int i=0; i < nq; i++) {\n    if (mju_isBad(qpos[i])) {", "  for (int i=1; i < nq; i++) {\n    if (mju_isBad(qpos[i])) {", "rule=R-CHECK construct=mj_checkPos")
+SLP = "src/engine/engine_sleep.c"
+mut("c30-wake-magnitude-test", "C30", SLP, "  if (tol) {\n    return isSmaller(d->qvel+adr, m->dof_length+adr, num, tol);\n  } else {\n    return mju_isZeroByte((const unsigned char*)(d->qvel+adr), num*sizeof(mjtNum));\n  }",
+    "  return isSmaller(d->qvel+adr, m->dof_length+adr, num, tol ? tol : mjMINVAL);", "rule=R-WAKE-NAN construct=treeCanSleep:nan-velocity-wakes")
+mut("c30-ok-wake-explicit-loop", "C30", SLP, "    return mju_isZeroByte((const unsigned char*)(d->qvel+adr), num*sizeof(mjtNum));",
+    "    for (int k=0; k < num; k++) {\n      if (!(d->qvel[adr+k] == 0)) return 0;\n    }\n    return 1;", None)
 # ---- C34
 NM = "src/engine/engine_name.c"
 mut("c34-wrong-count", "C34", NM, "      *padr = m->name_siteadr;\n      num = m->nsite;", "      *padr = m->name_siteadr;\n      num = m->ncam;", "rule=R-TABLE-NAME")
